@@ -24,7 +24,7 @@ DEADLINE = {'quick': 1200, 'thorough': 3300}
 
 
 def configs(tier):
-    ks = [1, 2, 3] if tier == 'quick' else [1, 2, 3, 4, 5]
+    ks = [1, 2, 3] if tier == 'quick' else [1, 2, 3, 4, 5, 6]
     out = [dict(name='ladder_k%d' % k, kind='ladder', k=k, weight=10 ** k, chunk=6, chunk_s=25,
                 bound='%d symbolic fills (q int != 0, p>0, c>=0) then one symbolic mark' % k,
                 twins=(['realised_nonzero', 'flipped'] if k >= 2 else [])) for k in ks]
